@@ -101,10 +101,9 @@ FamFaults(_z) ==
       exc \in {"ValueError", "KeyError", "ZeroDivisionError", "ProbeError"} }
 
 \* ---- family "flux": every composition of an interval into readouts, flux models
-Compositions(total, maxparts) ==   \* strictly increasing sequences ending at `total`
-  { s \in SeqsUpTo(1 .. total, maxparts) :
-      /\ Len(s) >= 1 /\ s[Len(s)] = total
-      /\ \A k \in 1 .. Len(s) - 1 : s[k] < s[k + 1] }
+Compositions(total, maxparts) ==   \* strictly increasing sequences ending at `total`, at most maxparts long
+  { SetToSortSeq(S \cup {total}, LAMBDA x, y : x < y) :
+      S \in { sub \in SUBSET (1 .. total - 1) : Cardinality(sub) < maxparts } }
 
 FluxPipe(useIll, useChg, q) ==
   [k \in 1 .. NG |->
